@@ -124,6 +124,11 @@ int cp_ecies_dec(uint8_t *out, size_t *out_len, const ec_t r, const uint8_t *in,
 	bn_null(x);
 	ec_null(p);
 
+	/* The ciphertext must at least hold the authentication tag. */
+	if (in_len < RLC_MD_LEN) {
+		return RLC_ERR;
+	}
+
 	RLC_TRY {
 		bn_new(x);
 		ec_new(p);
